@@ -227,28 +227,12 @@ class Check(object):
                 break
             units = [u for u in g["units"] if "%s::%s" % u in open_units]
             lemmas = [l for l in g.get("lemmas", []) if "lemma::" + l["name"] in open_units]
-            import signal
-
-            class _ScopeTimeout(Exception):
-                pass
-
-            def _on_alarm(signum, frame):
-                raise _ScopeTimeout()
-            left = max(5, int(budget - (time.time() - t_start)))
-            old_handler = signal.signal(signal.SIGALRM, _on_alarm)
-            signal.alarm(left)           # hard wall-clock limit for re-generating the units at this scope
             try:
                 refs = [r for r in g.get("refinements", []) if any(n.startswith("refines::%s<=" % r[0][1]) for n in open_units)]
                 eng, results = R.generate(reg, units, lemmas, self.repo, scope=k, strmode=g.get("strmode", "opaque"), refinements=refs)
-            except _ScopeTimeout:
-                self.say("note: finite-scope search stopped: generation at scope %d exceeded the %d s budget" % (k, budget))
-                break
             except Exception as e:       # finite-scope rebuild is best effort
                 self.say("note: finite-scope %d generation failed: %s" % (k, e))
                 continue
-            finally:
-                signal.alarm(0)
-                signal.signal(signal.SIGALRM, old_handler)
             items, idx = [], []
             for ur in results:
                 if ur.error:
